@@ -220,9 +220,20 @@ def shrink(prop, case, driver, pred):
             if budget <= 0:
                 break
             try:
+                _arm()
                 c = Case(payload, prop.rebuild(payload), origin='shrunk', model_ok=cur.model_ok)
                 res, _, _ = prop.run_case(c, driver)
+                _disarm()
+            except CaseTimeout:
+                # a candidate on which the implementation does not return is not a smaller witness
+                # of *this* failure; it costs the whole remaining budget to be fair to the run time
+                _disarm()
+                budget -= 50
+                if driver:
+                    driver.restart()
+                continue
             except Exception:
+                _disarm()
                 continue
             if pred(res):
                 cur = c
